@@ -36,11 +36,11 @@ pub fn def() -> PropDef {
         rule: "each case = one seeded world: a receiving socket (type = case index mod 6 over PULL,SUB,DEALER,ROUTER,REP,XPUB) with 1..4 scripted senders, tagged messages, transport knobs and scheduler policy drawn per run; a case is non-trivial when a fault fired or messages from >1 peer were delivered; distinct = distinct (plan hash, schedule hash, transport hash) triples among non-trivial cases",
         assumptions: &["scripted peers speak well-formed ZMTP 3.0 produced by the independent reference encoder", "bytes within one connection are delivered in order without loss (TCP/Unix stream semantics)"],
         strata: vec![
-            Stratum { name: "l1_fairqueue", quick: 300_000, thorough: 10_000_000, exhaustive: (false, false), run: l1, what: "component simulation of the fair queue: events inside the checked-out window" },
-            Stratum { name: "l2_clean", quick: 60_000, thorough: 1_000_000, exhaustive: (false, false), run: l2_clean, what: "whole library, fault-free: peers join late, close orderly" },
-            Stratum { name: "l2_faults", quick: 100_000, thorough: 1_500_000, exhaustive: (false, false), run: l2_faults, what: "whole library with cuts mid-message and resets" },
-            Stratum { name: "l2_real_sockets", quick: 60_000, thorough: 1_500_000, exhaustive: (false, false), run: l2_real, what: "real sockets on both sides: PUSH->PULL, PUB->SUB, DEALER->DEALER, DEALER->ROUTER, REQ->REP" },
-            Stratum { name: "l2_big", quick: 8_000, thorough: 100_000, exhaustive: (false, false), run: l2_big, what: "frames around 8 KiB / 128 KiB boundaries" },
+            Stratum { name: "l1_fairqueue", quick: 300_000, thorough: (10_000_000) * 2, exhaustive: (false, false), run: l1, what: "component simulation of the fair queue: events inside the checked-out window" },
+            Stratum { name: "l2_clean", quick: 60_000, thorough: (1_000_000) * 2, exhaustive: (false, false), run: l2_clean, what: "whole library, fault-free: peers join late, close orderly" },
+            Stratum { name: "l2_faults", quick: 100_000, thorough: (1_500_000) * 2, exhaustive: (false, false), run: l2_faults, what: "whole library with cuts mid-message and resets" },
+            Stratum { name: "l2_real_sockets", quick: 60_000, thorough: (1_500_000) * 2, exhaustive: (false, false), run: l2_real, what: "real sockets on both sides: PUSH->PULL, PUB->SUB, DEALER->DEALER, DEALER->ROUTER, REQ->REP" },
+            Stratum { name: "l2_big", quick: 8_000, thorough: (100_000) * 2, exhaustive: (false, false), run: l2_big, what: "frames around 8 KiB / 128 KiB boundaries" },
         ],
     }
 }
